@@ -130,8 +130,10 @@ func safeModeSweep(c *Ctx, targeted []string, each func(cf Cfg, it docItem, out 
 	})
 	if c.Quick() {
 		parserModelCases(c, items, 6000)
+		gfmModelCases(c, items, 3000)
 	} else {
 		parserModelCases(c, items, 60000)
+		gfmModelCases(c, items, 30000)
 	}
 	var mu sync.Mutex
 	type viol struct {
